@@ -26,6 +26,8 @@ static const entry_t pool[] = {
     {"R:TXT?", "rT,61226222/rT,2d"}, {"R:BLK?", "rK,0001020a0d3b"}, {"R:BLK0?", "rK,-"}, {"R:BH?", "rKH,4/rKD,6162/rKD,6364"}, {"R:BOVER?", "rKH,2/rKD,616263/rKD,6162"},
     {"R:ARR?", "rA,2,0,00010203"}, {"R:ARRS?", "rA,4,1,0102030405060708"}, {"R:ARR0?", "rA,2,0,-/rI,32,1,5,a"}, {"R:ARR1?", "rA,1,0,414243"}, {"R:FOUR?", "rI,32,1,1,a/rB,1/rT,78/rC,4142"},
     {"R:DBL?", "rF,1,3ff8000000000000,312e35"}, {"R:FLT?", "rF,0,40490fdb,332e3134313539"},
+    /* an entry without a handler, text copies into buffers of 0 and 1 bytes, a long array reader */
+    {"NOOP", "null"}, {"TXT0", "pT,1,0"}, {"TXT1", "pT,1,1"}, {"ARRL", "pA,32,1,300,1"},
     /* misuse of the streaming block calls: a block left unfinished, data without a header of its own */
     {"R:BOPEN?", "rKH,a/rKD,61626364"}, {"R:BTAIL?", "rKD,555657"},
 };
@@ -73,7 +75,7 @@ static size_t spell_header(char *out, const char *pattern, int exact) {
 static const char *params_ok[] = { "1", "-5", "+12", "100000", "2147483647", "-2147483648", "4294967295", "9223372036854775807", "18446744073709551615",
     "#HFF", "#Q17", "#B101", "#hffffffff", "1.5", "-1.5e3", ".5", "1.", "1e3", "1.5E-3", "12 V", "1.5mV", "3 KOHM", "2MHZ", "5 xyz", "1 e 3", "1E +3",
     "ON", "OFF", "BUS", "IMM", "EXTernal", "AUTO", "MIN", "MAXimum", "DEF", "UP", "DOWN", "NAN", "INF", "NINF", "abc", "a_1",
-    "\"text\"", "'single'", "\"a\"\"b\"", "''", "\"\"", "\"long string here 12345\"", "#13abc", "#10", "#213abcdefghijklm", "#15a;b\n1", "(1:2,3)", "(@1!2,3)", "()" };
+    "\"text\"", "'single'", "\"a\"\"b\"", "''", "\"\"", "\"long string here 12345\"", "#13abc", "#10", "#213abcdefghijklm", "#15a;b\n1", "#216ab\ncd;ef\r\nghijkl", "#220ab\nMARK 7\ncdefghijkl", "(1:2,3)", "(@1!2,3)", "()" };
 static const char *params_bad[] = { "\"unterminated", "#", "#1", "#Hzz", "(", ")", "@", "$", "1,,2", ",", "#14ab", "'x", "\x80", "1 2", "- 1", "e5", "..", "#B2" };
 #define NOK ((int)(sizeof params_ok / sizeof params_ok[0]))
 #define NBAD ((int)(sizeof params_bad / sizeof params_bad[0]))
@@ -133,8 +135,21 @@ static void gen_plain(int lo, int hi, int tcount, int maxunits, int bad_pct, int
     static char line[70000], table[20000], msg[4096]; int idx[24], n, m; size_t k;
     int bufsize = h_chance(70) ? 256 : 2 + (int) h_below(60), qcap = h_chance(80) ? 16 : 1 + (int) h_below(3);
     n = pick_table(idx, lo, hi, tcount);
+    /* now and then one of the special entries (no handler; text copy into 0 / 1 bytes; long array) joins the table */
+    if (h_chance(20)) idx[h_below((unsigned) n)] = NPOOL - 6 + (with_params ? (int) h_below(4) : 0);
     build_table(table, idx, n);
     k = (size_t) sprintf(line, "%s %d %d %s", tag, bufsize, qcap, table);
+    if (with_params && h_chance(1)) {
+        /* a very long parameter list read by one array reader: every item is delivered, whatever the count */
+        static char big[4000]; static const int counts[] = {254, 255, 256, 257, 258, 300}; int cnt = counts[h_below(6)], j; size_t bl;
+        idx[0] = NPOOL - 3; build_table(table, idx, n);
+        bl = (size_t) sprintf(big, "ARRL ");
+        for (j = 0; j < cnt; j++) bl += (size_t) sprintf(big + bl, "%s%d", j ? "," : "", (j * 7) % 100);
+        big[bl++] = '\n';
+        k = (size_t) sprintf(line, "%s %d %d %s ", tag, 4096, qcap, table); k += chunk_hex(line + k, big, bl);
+        emit_case(line);
+        return;
+    }
     if (h_chance(8)) {
         /* history: a terminated message and an UNTERMINATED one arrive in one call; a zero-length call executes the second.
          * Its last parameter must be delivered as written, not glued to what the first message left behind it */
@@ -213,6 +228,12 @@ void dom_p09(void) {
         n = pick_table(idx, 0, NPOOL, 8 + (int) h_below(10));
         build_table(table, idx, n);
         k = (size_t) sprintf(line, "P9 256 %d %s", h_chance(80) ? 16 : 2, table);
+        if (h_chance(30)) {
+            /* all of A in ONE call: a compound message followed by more bytes in the same call */
+            static char all[13000]; size_t al = 0;
+            for (m = 0; m < (na < 2 ? 2 : na); m++) { ml = gen_message(msg, idx, n, 4, 10, 1); if (al + ml < sizeof all - 2) { memcpy(all + al, msg, ml); al += ml; } }
+            line[k++] = ' '; k += chunk_hex(line + k, all, al);
+        } else
         for (m = 0; m < na; m++) { ml = gen_message(msg, idx, n, 4, 15, 1); line[k++] = ' '; k += chunk_hex(line + k, msg, ml); }
         if (h_chance(30)) k += (size_t) sprintf(line + k, " -");
         k += (size_t) sprintf(line + k, " |");
